@@ -32,7 +32,7 @@ def terminal_hooks_cannot_fail_on_futures(chk: Check) -> None:
     proc = prog.cls('processes.Process')
     n = 0
     for name in ('on_entered', 'on_terminated', 'on_finished', 'on_excepted', 'on_killed'):
-        f = prog.view(proc.methods.get(name))
+        f = prog.view(proc.vmethods.get(name))
         if f is None:
             continue
         ff = chk.ctx.facts.analyse(f)
@@ -82,7 +82,7 @@ def tab_lifecycle(chk: Check) -> None:
            node=rets[0] if rets else it.node, kind='is-terminal-definition')
     for sc in common.state_classes(prog):
         if 'is_terminal' in sc.methods:
-            chk.ob('TAB-lifecycle', prog.view(sc.methods['is_terminal']), False, 'a state class overrides is_terminal()',
+            chk.ob('TAB-lifecycle', prog.view(sc.vmethods['is_terminal']), False, 'a state class overrides is_terminal()',
                    kind='is-terminal-override')
     ht = prog.func('processes.Process.has_terminated')
     rets = [s for s in ast.walk(ht.node) if isinstance(s, ast.Return)]
